@@ -6,6 +6,31 @@ ENV = "GOFLAGS=-mod=mod GOPROXY=off GOSUMDB=off GOTOOLCHAIN=local GOWORK=off"
 
 # property -> (claimed?, technique, level text, level note, design_ref)
 CHECKS = {
+ "C01": ("custody/obligation pairing on every path + provenance + who-may-write",
+         "Decides the inductive-step structure of 'escrow = pending fees + earnings': credit and issue are paired on every path of the new-batch handler by results of one filter call, every settlement releases "
+         "exactly the settled request's fee once and deletes both markers, one pricing routine with the same roles charges and records, earn/withdraw conserve by value identity, and only role functions write the fee families. "
+         "The numeric equation is not decided.",
+         "A-SDK, A-HOST. Known findings: D11 (module-service path). Trusted base: go/types, x/tools v0.29.0, svclint rule tables.",
+         "DESIGN.md §4 C01"),
+ "C02": ("exactly-one settlement automaton + provenance + formula skeleton",
+         "Decides that each accepted response / expired request is settled exactly once with recipient and amount taken from the settled request, refund iff malformed output (resp. not super mode), the tax skeleton and the debit provenance. "
+         "floor arithmetic and bank crediting are A-SDK.",
+         "A-SDK. Trusted base: go/types, x/tools v0.29.0, svclint rule tables.",
+         "DESIGN.md §4 C02"),
+ "C06": ("exact guard-set dominance in the filter loop + path rules in the new-batch handler",
+         "Decides that a provider is issued a request iff exactly {found, available, QoS<=timeout, price<=cap} hold for its binding and price, every provider is considered, issue iff enough providers else skip, pay failure pauses with no requests, expired before new. "
+         "Coins comparison semantics are A-SDK.",
+         "A-SDK. Trusted base: go/types, x/tools v0.29.0, svclint rule tables.",
+         "DESIGN.md §4 C06"),
+ "C07": ("formula skeleton + polarity + sibling identity",
+         "Decides structural necessary conditions of the pricing formula: skeleton and clamp of the pricing routine, time-window polarity, one routine for charge and record, volume key roles, parsed pricing stored with the text, no fee in super mode. "
+         "Tier selection, discount range and the numeric result are not decided.",
+         "A-SDK; discounts in (0,1) by JSON schema (not decided). Trusted base: go/types, x/tools v0.29.0, svclint rule tables.",
+         "DESIGN.md §4 C07"),
+ "C13": ("value identity on every path + who-may-write + key grammar",
+         "Decides dual bookkeeping by one value, withdrawal pays exactly what it deletes to the owner's withdrawal address, withdraw-address writes only from the owner's own message, deletions only in withdraw, and the key grammar of the earnings families. Sums are not decided.",
+         "A-SDK. Known findings: D5, D13. Trusted base: go/types, x/tools v0.29.0, svclint rule tables.",
+         "DESIGN.md §4 C13"),
  "C03": ("custody pairing by value on every committed path + guard dominance",
          "Decides the inductive-step structure of 'deposit balance = sum of recorded deposits': every stored change of a binding's Deposit is paired, on the same path and by the same value term, "
          "with exactly one custody operation on the deposit account (and vice versa), refunds are dominated by owner/unavailable/non-zero/time guards with the stated time skeleton, payer = signer. "
